@@ -21,7 +21,7 @@ CONSTANTS MaxD,        \* behaviour length
 VARIABLES hist,        \* the steps taken so far
           nw,          \* number of words allocated (Fresh)
           fin          \* the behaviour is complete (it is printed exactly once)
-vars == <<slots, net, reg, taint, procs, hist, nw, fin>>
+vars == <<slots, net, reg, taint, procs, gor, hist, nw, fin>>
 
 \* Shapes are templates: placeholders "$1".."$4" are instantiated with fresh
 \* words when Fresh, so that every input string is searchable in the outputs.
@@ -172,7 +172,7 @@ GInit == Init /\ hist = <<>> /\ nw = 0 /\ fin = FALSE
 \* a behaviour of MaxD steps is closed by one Finish step, so that it is printed
 \* once (in simulation mode TLC evaluates invariants on every successor it
 \* generates, not only on the one it follows)
-Finish == Len(hist) = MaxD /\ ~fin /\ fin' = TRUE /\ UNCHANGED <<slots, net, reg, taint, procs, hist, nw>>
+Finish == Len(hist) = MaxD /\ ~fin /\ fin' = TRUE /\ UNCHANGED <<slots, net, reg, taint, procs, gor, hist, nw>>
 GNext ==
   \/ /\ Len(hist) < MaxD
      /\ IF HopLast = 0 THEN Step1(slots) \/ StepHop(slots)
